@@ -88,7 +88,7 @@ func (c09) Gen(seed uint64, idx int, tier string) *Scenario {
 	}
 	if r.Chance(1, 40) {
 		// programs at the compiler's own limits are accepted programs too (1024 locals, deep nesting, many blocks)
-		sc.Src = gen.LimitProgram(r, prng.Pick(r, []string{"locals", "blocklocals", "blocks", "manyblocks", "rightnest", "deepblocks-vars", "manyconsts"}), false)
+		sc.Src = gen.LimitProgram(r, prng.Pick(r, []string{"locals", "blocklocals", "blocks", "manyblocks", "rightnest", "deepblocks-vars", "manyconsts", "negchain", "notchain", "flatchain", "parens"}), false)
 		sc.Class = "limit"
 	}
 	sc.Name = progName(r)
